@@ -33,12 +33,18 @@ where
   fn set_ref_count(&self) {
     {
       let subscription = Arc::clone(&self.subscription);
+      let subject = self.subject.clone();
       self.subject.set_on_unsubscribe(move |count| {
         if count == 0 {
           // the last subscriber left: release the source and forget its
-          // subscription, so that the next first subscriber connects again
-          let sbsc = subscription.write().unwrap().take();
-          if let Some(sbsc) = sbsc {
+          // subscription, so that the next first subscriber connects again.
+          // Connecting and releasing are serialized by the slot's lock, and
+          // a subscriber that joined in the meantime keeps the source
+          let mut slot = subscription.write().unwrap();
+          if subject.observer_count() != 0 {
+            return;
+          }
+          if let Some(sbsc) = slot.take() {
             sbsc.unsubscribe();
           }
         }
